@@ -40,7 +40,7 @@ def run(tier):
     # 2. programs: a sample of every TLC family + rejected queries + run-time failures
     progs = []
     for fam, w in [("subif", 3), ("altor", 3), ("closure", 3), ("fmt", 3), ("names", 3), ("blocks", 4)]:
-        vecs, st = engine.generate(fam, w, 16, wd)
+        vecs, st = engine.generate(fam, w, 16, wd, light=True)
         texts = [zw.unparse(v["ast"], "top") for v in vecs]
         n = 400 if tier == "quick" else 3000
         progs += rng.sample(texts, min(n, len(texts)))
